@@ -210,6 +210,7 @@ func (tl *TaskLane) PushTask(task Task, index int) error {
 		case <-tl.ctx.Done():
 			return tl.ctx.Err()
 		case tl.bufferedQueueList[index] <- task:
+			verifPoint("P2", index, task)
 			return nil
 		case <-time.After(tl.timeout):
 			return ErrTimeout
